@@ -35,7 +35,7 @@ func config(c refmodel.Combo) *store.Config {
 }
 
 var queryKeys = []string{"a", "ab", "b", "zz"}
-var queryOrds = []uint64{0, 1, 2, 3}
+var queryOrds = []uint64{0, 1, 2, 3, 1 << 63, ^uint64(0)}
 
 func Eval(cs Case) (*core.Fail, bool) {
 	env := envPool.Get().(*storedrv.Env)
@@ -226,6 +226,19 @@ func Run(ctx *core.Ctx) int {
 				}
 			}
 		}
+		// ordinals are free 64-bit numbers: operations whose ordinals are 2^63 or more apart
+		for _, c := range combos {
+			alpha := refmodel.OpAlphabet(c, 1, []uint64{0, 1 << 63, ^uint64(0)})
+			for pre := range refmodel.PreStates(c) {
+				ok := refmodel.Sequences(alpha, 3, func(seq []refmodel.Op) bool {
+					seqs++
+					return emit(Case{Combo: c, Pre: pre, Ops: seq})
+				})
+				if !ok {
+					return
+				}
+			}
+		}
 		// long blocks: more operations in one block than the threshold (12) below which Go's sort routines fall back to
 		// insertion sort, all on one key with a distinct value each, every ordinal vector over a small ordinal set.
 		// "Stable ordinal order" must hold for every block length, and only the ordinal pattern matters here.
@@ -263,7 +276,7 @@ func Run(ctx *core.Ctx) int {
 	ctx.Cov["exhaustive"] = true
 	ctx.Cov["combos"] = len(combos)
 	ctx.Cov["queries_per_case"] = len(queryKeys) * (2 + len(queryOrds)) * 2
-	ctx.Cov["rule"] = fmt.Sprintf("%d (policy,value type) combos x 3 pre-states built through the real write path x every operation sequence of length <=%d over (3 keys x %d values x ordinals {0,1,2}) + (delete_prefix of a,b,'' x ordinals); after Flush every get/has first/last/at on 4 keys x ordinals 0..3 via store.Reader and via wasm.Call.Do*, plus the delta list replayed on the pre-state. Non-trivial: >=2 writes to one key with different ordinals, or a delete_prefix hitting a key written in the block. Distinct by construction. Plus long blocks: %v (length, number of ordinals) operations on one key with a distinct value each, every ordinal vector, policies set/append/set_if_not_exists/add.", len(combos), maxLen, nvals, longBlocks(ctx.Thorough()))
+	ctx.Cov["rule"] = fmt.Sprintf("%d (policy,value type) combos x 3 pre-states built through the real write path x every operation sequence of length <=%d over (3 keys x %d values x ordinals {0,1,2}) + (delete_prefix of a,b,'' x ordinals); after Flush every get/has first/last/at on 4 keys x ordinals 0..3 via store.Reader and via wasm.Call.Do*, plus the delta list replayed on the pre-state. Non-trivial: >=2 writes to one key with different ordinals, or a delete_prefix hitting a key written in the block. Distinct by construction. Plus every sequence of <=3 operations with ordinals from {0, 2^63, 2^64-1} (1 value). Plus long blocks: %v (length, number of ordinals) operations on one key with a distinct value each, every ordinal vector, policies set/append/set_if_not_exists/add.", len(combos), maxLen, nvals, longBlocks(ctx.Thorough()))
 	ctx.Assume = []string{
 		"numeric alphabets are dyadic rationals of small magnitude (exact float/decimal sums, no int64 overflow, no 34-digit truncation)",
 		"values compared typed: numbers as numbers, set_sum after stripping the set:/sum: tag, bytes bytewise",
